@@ -576,7 +576,9 @@ def skeleton : List (Fn × List Stmt) := [
   (f_Chain_ProcessBlock, [.act (.send ch_Chain_processBlockCh), .act (.recvReply rp_processBlockMsg_reply)]),
   (f_Chain_ProcessBlockVerification, [.call f_Casper_AuthVerification]),
   (f_Chain_ValidateTx, [.call f_TxPool_HaveTransaction, .alt [[.call f_TxPool_GetErrCache], [.call f_TxPool_AddErrCache], [.call f_Chain_BestBlockHeader, .alt [[.call f_TxPool_AddErrCache], [.call f_TxPool_ProcessTransaction]]]]]),
-  (f_Chain_blockProcessor, [.loop true [.sel [[.act (.recv ch_Chain_processBlockCh), .call f_Chain_processBlock, .act (.sendReply rp_processBlockMsg_reply)], [.act (.recv ch_Casper_rollbackCh), .call f_Chain_tryReorganize, .act (.sendReply rp_RollbackMsg_Reply)]]]]),
+  -- a rollback request is answered with the fork choice read NOW (casper.BestChain(): read lock of
+  -- casper.mu, nothing held), not with the hash the requester computed before it released the lock
+  (f_Chain_blockProcessor, [.loop true [.sel [[.act (.recv ch_Chain_processBlockCh), .call f_Chain_processBlock, .act (.sendReply rp_processBlockMsg_reply)], [.act (.recv ch_Casper_rollbackCh), .call f_Casper_BestChain, .call f_Chain_tryReorganize, .act (.sendReply rp_RollbackMsg_Reply)]]]]),
   (f_Chain_processBlock, [.call f_Chain_BlockExist, .alt [[.call f_OrphanManage_BlockExist], [.call f_OrphanManage_Add], [.call f_Chain_saveBlock, .alt [[], [.call f_Chain_saveSubBlock, .call f_Casper_BestChain, .call f_Chain_tryReorganize]]]]]),
   (f_Chain_reorganizeChain, [.alt [[], [.call f_Chain_setState, .alt [[], [.loop false [.call f_TxPool_RemoveTransaction], .loop false [.call f_Chain_ValidateTx]]]]]]),
   (f_Chain_saveBlock, [.alt [[], [.call f_Casper_ApplyBlock, .alt [[], [.call f_OrphanManage_Delete]]]]]),
